@@ -27,23 +27,28 @@ from ..lib.impl import Raised, call  # noqa: E402
 LEVEL = "proof"
 CLAIM = dict(
     category="proof",
-    text="DarsiaProps.C14 (all inputs, exact rationals): clip bounds/idempotence, scaling/linear affine (the isclose shortcut "
-    "deviates by <= 1.001e-5|x|), CombinedModel = sequential composition, parameter routing for 'all' and for every list of "
-    "(position, dofs) entries (each addressed sub-model receives exactly the next slice of the flat vector, in order), "
-    "heterogeneous = homogeneous per label, thresholding = strictly between bounds inside the mask, the polynomial exponent "
-    "enumeration is a bijection onto {(i,j) | i+j <= d} for all d (tied to the code for d <= 8 by tabulation); KernelInterpolation as a "
-    "state machine (kernel in force, np.unique sort/de-duplication of supports with re-indexed values, cached inverse, update / "
-    "update_kernel / update_model_parameters(values)): for ALL update sequences the cached inverse and the weights belong to the "
-    "current kernel, supports and values, hence reproduction at the current supports whenever the current kernel matrix is "
-    "invertible (any field, abstract kernel); the accumulation loop of linear_combination equals the plain kernel sum for every "
-    "kernel function and the three supported signal shapes (tied EXACTLY for LinearKernel, numba and plain, on dyadic float32 "
-    "inputs). The model is tied to the classes by an exact "
-    "differential correspondence on dyadic inputs incl. error classes and by G1 tables of the dof dispatch.",
-    note="the kernel state machine is tied by a correspondence on random op sequences (discrete state exactly; interpolation_weights "
-    "against inv(K(key)) @ values for the key the model predicts); OBSERVED ONLY for kernel interpolation: the values of exp (GaussianKernel), np.linalg.inv, float32 rounding and fastmath on non-dyadic data (reproduction "
-    "1e-4, numba vs plain sum 1e-5), on fresh objects and along update sequences on one object (same-count new supports, "
-    "value-only updates, changed count, AdvancedKernelInterpolation) with equality to a fresh object after every step; every "
-    "updatable parameter is also set to exactly 0 through every route; label maps are 2-D (3-D label volumes are not modelled).",
+    text="DarsiaProps.C14 over exact rationals, all inputs. Theorems with content: clip bounds / idempotence; scaling / linear affine, the "
+    "isclose shortcut as an explicit guard |s-1| <= 1e-8+1e-5 with a theorem on either side; CombinedModel = sequential composition; "
+    "parameter routing for 'all' and every list of (position, dofs) entries as global consecutive slices (routing_all, "
+    "routing_subset_slices); the label LOOP over np.unique(labels) with mask assignment as coded - HeterogeneousLinearModel, "
+    "label-wise StaticThresholdModel incl. the mask / return_float tail, the HeterogeneousModel wrapper - proved equal to the "
+    "per-label homogeneous model / the clause 'strictly between the bounds inside the mask' (hetero_loop_eq_homog_on_label, "
+    "threshold_ops_eq_clause, wrapper_loop_eq_model); the label map in force after any call sequence = nearest-neighbour resize of the "
+    "ORIGINAL labels for OpenCV's index rule (exact floor, one below at tabulated double-rounding breakpoints); poly_span for all d; "
+    "KernelInterpolation as a state machine: for ALL update sequences cached inverse and weights belong to the current kernel / "
+    "supports / values, hence reproduction at the current supports when the current kernel matrix is invertible (abstract kernel, any "
+    "field); the accumulation loop of linear_combination = plain kernel sum for every kernel function and the three signal shapes. "
+    "Definitional (unfold the pointwise model, kept as clause forms): hetero_eq_homog_on_label, threshold_strict, threshold_hetero, "
+    "wrapper_eq_model_on_label, hetero_result_type; routing_one / routing_subset restate the class dispatch restricted to one slice. "
+    "Tie: exact differential correspondence of the OPERATIONAL models on dyadic inputs for float64, float32, uint8, uint16 and int64 "
+    "signals (values and element type of the result), error classes, update sequences; G1 tables (dof dispatch, exponents d <= 8, "
+    "cv2 rounding points n,N <= 64, index maps <= 16); LinearKernel numba / plain loop exactly on dyadic float32.",
+    note="OBSERVED ONLY: exp (GaussianKernel), np.linalg.inv, float32 rounding and fastmath on non-dyadic data (reproduction 1e-4, numba vs "
+    "plain sum 1e-5, on fresh objects and along update sequences incl. AdvancedKernelInterpolation); the kernel state machine's weights "
+    "are compared with inv(K(key)) @ values for the key the model predicts (1e-6 cond). Not modelled: 3-D label volumes; Image inputs "
+    "other than for ClipModel (behaviour recorded in the evidence); states after an exception; cv2 index rule beyond n,N = 64 (theorems "
+    "hold for any rounding table of the stated form, the tie stops at 64). Known finding: KernelInterpolation.update_model_parameters "
+    "with the kernel dof / default dofs.",
     technique="Lean 4 proof + G1 tabulation + differential correspondence + property oracle",
 )
 
